@@ -52,6 +52,16 @@ def to_scaled_int(v, scale):
     return n, abs(fv - back) <= tol
 
 
+def matches_scaled_int(v, N, scale):
+    """Is the decoded float v the value N / 10^scale?  Exact on the scaled integer while a double can
+    hold it (|N| < 2^50); beyond that the float must be within 2^-50 relative of the exact quotient."""
+    if abs(N) < 2 ** 50:
+        n, ok = to_scaled_int(v, scale)
+        return ok and n == N
+    exact = Fraction(N) / (Fraction(10) ** scale)
+    return abs(Fraction(v) - exact) <= abs(exact) * Fraction(1, 2 ** 50)
+
+
 def wide_to_int(w):
     n = 0
     for limb in reversed(w['m']):
